@@ -71,6 +71,13 @@ def _mk_corpus():
     ad = os.path.join(cd, "audit")
     for fn in sorted(os.listdir(ad)):
         add("audit/" + fn, {fn: rd(os.path.join(ad, fn))}, fn, fn, ["-D__cplusplus"], ["pf", "ig", "igc", "igo", "ign"])
+    # generator-made headers an audit's fuzzer found crashes with (Python slot names with odd signatures, property macros naming
+    # arbitrary functions, typedef'd arrays and pointers in signatures)
+    fz = os.path.join(cd, "fuzz")
+    pre = rd(os.path.join(fz, "pre.h"))
+    for fn in sorted(os.listdir(fz)):
+        if fn != "pre.h":
+            add("fuzz/" + fn, {fn: rd(os.path.join(fz, fn)), "pre.h": pre}, fn, fn, ["-D__cplusplus"], ["pf", "ig", "igc", "ign"])
     nh, nn = rd(os.path.join(cd, "nfile.h")), rd(os.path.join(cd, "nfile.N"))
     add("corpus/nfile.N", {"nfile.h": nh, "nfile.N": nn}, "nfile.h", "nfile.N", ["-D__cplusplus"], ["ig"])
     add("corpus/nfile2.N", {"nfile.h": nh, "nfile.N": rd(os.path.join(cd, "nfile2.N"))}, "nfile.h", "nfile.N", ["-D__cplusplus"], ["ig"])
